@@ -35,9 +35,10 @@ type c29Opts struct {
 	MinNodes, MaxNodes int
 	BrokenMP           float64 // probability that a multipolygon gets a missing/open way member
 	Reserved           float64 // probability that a node / an open way carries an OSM tag whose key is b6's geometry key
+	SharedWays         float64 // probability that a multipolygon gets a twin over the same way members
 }
 
-func c29DefaultOpts() c29Opts { return c29Opts{MinNodes: 5, MaxNodes: 60, BrokenMP: 0.15} }
+func c29DefaultOpts() c29Opts { return c29Opts{MinNodes: 5, MaxNodes: 60, BrokenMP: 0.15, SharedWays: 0.3} }
 
 type c29Input struct {
 	Nodes     []osm.Node
@@ -420,6 +421,17 @@ func c29Generate(r *core.R, o c29Opts) *c29Input {
 		in.Relations = append(in.Relations, osm.Relation{ID: id, Members: members, Tags: tags})
 		mps = append(mps, mpInfo{id, broken})
 		in.label("multipolygon")
+		// a second multipolygon over the same ways (adjacent land uses share their boundary ways)
+		if r.Chance(o.SharedWays) {
+			tags2 := g.tags(0.8, 3)
+			at := r.Intn(len(tags2) + 1)
+			tags2 = append(tags2[:at:at], append(osm.Tags{{Key: "type", Value: "multipolygon"}}, tags2[at:]...)...)
+			id2 := osm.RelationID(g.newID(osm.ElementTypeRelation))
+			in.Relations = append(in.Relations, osm.Relation{ID: id2, Members: append([]osm.Member{}, members...), Tags: tags2})
+			mps = append(mps, mpInfo{id2, broken})
+			in.label("multipolygon")
+			in.label("mp_shares_ways")
+		}
 	}
 
 	// 5. plain relations (acyclic: a relation only refers to earlier ones)
